@@ -24,7 +24,8 @@ CLAIMS["C10"] = (
     "Static analysis of all non-legacy modules: every node class is a frozen dataclass without __setattr__ overrides; every attribute "
     "store / object.__setattr__ / setattr / __dict__ write is classified by receiver and none targets an existing node; no in-place "
     "container mutation goes through a node attribute; the generated accessors contain no store; the registry-changing operations (detach, detach_self, replace) "
-    "are called only from their audited callers (no visitor, serializer or traversal calls them). A frame condition is a who-may-write "
+    "are called only from their audited callers (no visitor, serializer or traversal calls them); no function edits its argument in place and recurses into its elements "
+    "(payload values may be the node's own); no bypass write uses a field name read from a Field object. A frame condition is a who-may-write "
     "statement, so deciding it over all write sites covers every operation sequence; mutation through user-defined property objects is not decided.",
     "Assumes dataclasses' frozen semantics; receivers are classified from annotations, bindings and an audited two-entry table of fresh locals.",
     "DESIGN.md §3 C10",
@@ -33,7 +34,8 @@ CLAIMS["C12"] = (
     "partial evaluation of the codegen templates over the finite field-descriptor domain + exhaustive truth tables of the skip flags + sibling comparison with the static variant",
     "The text templates of codegen.py are partially evaluated for every field descriptor (name kind x compare x init, collection or single); the "
     "emitted fragments are parsed and decided: all 32 flag rows for each of 16 descriptors (generated and static variant), identity presence test, "
-    "enumeration shape, sort key and mapping order (base properties included), no module-level mutable state in the code generator, no abstract-collection test on child values, exhaustive re-installation on subclasses. This covers every class a user can define because "
+    "enumeration shape, sort key and mapping order (base properties included), no module-level mutable state in the code generator, no abstract-collection test on child values, exhaustive re-installation on subclasses on every path, the child generators do not depend on how a child field is declared, "
+    "to_properties_dict drops nothing. This covers every class a user can define because "
     "a fragment depends on the descriptor only; the order of dataclasses.fields is assumed.",
     "Assumes CPython dataclass field order and dict insertion order; template evaluator handles the string-builder idioms listed in DESIGN.md Appendix C.",
     "DESIGN.md §3 C12",
@@ -43,7 +45,8 @@ CLAIMS["C01"] = (
     "The ordered contribution list of the string hashed into content_id is recovered from ASTNode.__post_init__ and compared with the property's "
     "own table: class identity, whole field names, type tag and whole rendered value of exactly the comparable properties (flags resolved "
     "against the accessor signature, sorted), field/index/content_id of every child (sorted); nothing from origins, ids, registry, time. "
-    "The generators' output does not depend on Field.hash/repr/kw_only. Unique decodability and canonical rendering of the value segment are decided (two known findings). content_id is stored once; is_equal "
+    "The generators' output does not depend on Field.hash/repr/kw_only; the per-class field tables are keyed by the class object; the text is encoded without a lossy error handler; "
+    "no field is assigned through the frozen bypass after construction. Unique decodability and canonical rendering of the value segment are decided (two known findings). content_id is stored once; is_equal "
     "is type identity and content_id equality. Decides these necessary conditions for every node model; hash collisions are not decided.",
     "Assumes blake2b injective on compared inputs and str() of user property types injective; generated accessors decided via C12's template analysis.",
     "DESIGN.md §3 C01",
@@ -53,7 +56,8 @@ CLAIMS["C05"] = (
     "dfs/bfs are recognised as worklist algorithms; take side vs put side, reversal of the child sequence under each value of bottom_up and the "
     "emission buffer are derived from the container operations and looked up in a fixed calculus (pre-order, post-order, level order); seeds are "
     "the children of the start node; every record is (child, enumerated parent, field, index) of one enumeration tuple; the loop body is decided as "
-    "a truth table over filter/prune outcomes; traversals do not recurse on tree depth; gather's filter formula and delegation are decided; the generated child enumeration yields present "
+    "a truth table over filter/prune outcomes; traversals do not recurse on tree depth, keep no visited-set and defer no group that reads a loop variable late; gather is fed from dfs; the accessors are re-installed on every path of "
+    "__init_subclass__; child values are not classified by abstract-collection tests; gather's filter formula and delegation are decided; the generated child enumeration yields present "
     "children only, by identity, indexed from 0 in declaration order. Holds for every tree and predicate because these facts do not depend on the tree.",
     "Assumes stdlib list/deque semantics; a traversal rewritten outside the worklist idiom is reported as analysis-incomplete (exit 2), never as a pass.",
     "DESIGN.md §3 C05",
@@ -62,7 +66,7 @@ CLAIMS["C02"] = (
     "decision tree of _eq_fn over comparison atoms with the position loop abstracted after a full-traversal check; installation, hash-dependence and origin-equality scans",
     "The decision tree of _eq_fn is enumerated over its atoms: it returns True exactly on class identity AND equal content_id AND equal root origin "
     "AND equal origins at every position, the position loop zipping full traversals (dfs/bfs without prune/filter) of both operands and comparing "
-    "origins by value; only the class of `other` is read before the class test; __eq__/__hash__ are installed on every path of __init_subclass__, no __ne__ by hand, origin is a compared field; "
+    "origins by value; only the class of `other` is read before the class test; __eq__/__hash__ are installed on every path of __init_subclass__, no __ne__ by hand, origin is a compared field; the zipped traversals visit every position (the worklist calculus of C05, no visited-set), origins are never compared as sets; "
     "hash depends on id only and id is written only under construction; origin classes use generated equality. Every atom is the same projection on "
     "both operands, so the relation is an equivalence. CPython's dataclass decorator keeping the installed __eq__ is assumed.",
     "Assumes dataclasses keeps __eq__/__hash__ set by __init_subclass__; content_id equality implies equal shape (C01).",
@@ -73,7 +77,7 @@ CLAIMS["C03"] = (
     "Every mutation of NODE_REGISTRY is located (all modules) and must be in one of four owner functions; the initialiser is a WeakValueDictionary and no "
     "strong library container receives a node; every removal keyed by X.id is dominated by `entry is X`; every stored key carries a freshness proof on "
     "every path; in replace every exceptional exit after the unregister passes the restore and the success path does not; detach iterates a full traversal; "
-    "the id digest input is deterministic; get's decision tree equals the specified table. These are necessary conditions on all code paths; registry "
+    "the id digest input is deterministic (flag tables and per-class field tables of the generated accessor included); get's decision tree equals the specified table. These are necessary conditions on all code paths; registry "
     "contents along histories and GC behaviour are not decided by static analysis.",
     "Assumes WeakValueDictionary semantics; constructing calls between a freshness proof and the store do not claim that key.",
     "DESIGN.md §3 C03",
@@ -82,7 +86,8 @@ CLAIMS["C14"] = (
     "must-pass-through analysis of duplicate (decision tree per child field), form of replace, pop/restore pairing dataflow shared with C03",
     "In duplicate every value stored for a child field derives from the original only through .duplicate() (single nodes and each tuple element; both kinds "
     "have a storing path) and the result is dataclasses.replace(self, **changes); replace unregisters first, constructs through dataclasses.replace(self, **kwargs), "
-    "restores the entry on every exceptional exit and only then; removals are identity guarded; the collision suffix of a new id is derived from the registry alone. Decides independence/faithfulness structurally for every tree; "
+    "restores the entry on every exceptional exit and only then; removals are identity guarded; the collision suffix of a new id is derived from the registry alone and the id returned is proven free; the given values reach dataclasses.replace unchanged; "
+    "originals and copies are not paired through a map keyed by node objects or ids. Decides independence/faithfulness structurally for every tree; "
     "which id results is history dependent and not decided.",
     "Assumes dataclasses.replace semantics (re-runs __init__ with current init-field values).",
     "DESIGN.md §3 C14",
@@ -92,7 +97,7 @@ CLAIMS["C15"] = (
     "CodePoint/CodeRange are touched only through comparisons of .index, so their comparison methods are decided over every weak ordering of the points "
     "involved (75 orderings of 4 points for the binary laws, 4683 of 6 points for transitivity/associativity, exhaustive): equivalence with the reference "
     "formulas and the algebraic laws; construction guards at boundary values; decision trees of CodeOrigin.__add__ and merge_origins, single construction "
-    "site of MultiOrigin (operands never handed back, no total_ordering synthesis), operand-order inference in MultiOrigin.__post_init__, exact slice bounds of get_raw. fqn composition is not decided.",
+    "site of MultiOrigin (operands never handed back, no total_ordering synthesis), concat_origins is the left fold of +, operand-order inference in MultiOrigin.__post_init__, exact slice bounds of get_raw. fqn composition is not decided.",
     "Assumes Python's reflected-operator fallback and min/max semantics; operator dispatch resolved through the analysed class table.",
     "DESIGN.md §3 C15",
 )
@@ -101,7 +106,7 @@ CLAIMS["C13"] = (
     "The leading guard of is_instance equals `annotation is int and value is a bool` on all rows; the element-wise zip for fixed tuples is reached only with equal "
     "lengths; the block gated by config.RUNTIME_TYPE_CHECK is entered exactly when the flag is on, has no effect besides raising, checks every field except "
     "id/content_id irrespective of init, reads the field map of the class itself (no inherited cache) and raises InvalidTypes with exactly the non-conforming fields; annotations reach "
-    "the check through plain get_type_hints. is_instance over the whole annotation grammar is not decided.",
+    "the check through plain get_type_hints; a union is decided by `any` member, never by one selected member. is_instance over the whole annotation grammar is not decided.",
     "Assumes typing introspection helpers behave as documented.",
     "DESIGN.md §3 C13",
 )
@@ -118,7 +123,8 @@ CLAIMS["C07"] = (
     "grammar<->transformer arity agreement (lark grammar loader on the lifted literal), truth table of the shared step predicate, must-pass-through of the root sanitiser, decision tree of the bottom-up matcher",
     "The xpath grammar literal is loaded and each rule is compared with what its transformer callback consumes (a variadic kept terminal needs a callback that uses all arguments: "
     "all index digits significant); findall and match decide every step with one predicate whose truth table over six atoms equals the documented formula; both present the root "
-    "without field and index; '//' iterates a full traversal (findall) / every proper ancestor (match), '/' the direct children / parent; find is the first of findall; an xpath text is parsed on every construction (no cache of compiled paths). "
+    "without field and index; '//' iterates a full traversal (findall) / every proper ancestor (match), '/' the direct children / parent; find is the first of findall; an xpath text is parsed on every construction (no cache of compiled paths, no one-shot iterator kept on the compiled object); the empty-step marker stands for "
+    "an element without children only. "
     "These are necessary conditions on all paths; equivalence of the two algorithms as programs is not decided.",
     "Assumes lark's argument filtering (anonymous tokens dropped) and Tree.get_parent_info's root convention (C06).",
     "DESIGN.md §3 C07",
@@ -128,7 +134,7 @@ CLAIMS["C08"] = (
     "Per matcher method the decision tree is enumerated: regex API is match on str(value); node values compare by is_equal; the sequence length relation (equal / at least the listed "
     "elements, with the tail representation read from __post_init__) dominates the zip for all lengths 0..3; isinstance over all class alternatives; BaseMatcher.match captures the very "
     "object and returns {} on failure; tail slice; no matcher is a state-carrying singleton; no __post_init__ derives a non-init field from an init field it rewrites; match bodies store "
-    "nothing; cache filled only on success; first matching rule in order; a set tail capture is consulted on every successful path; every compilation uses a fresh interpreter. The recursive semantics over all pattern x node pairs is not decided.",
+    "nothing; cache filled only on success; first matching rule in order; a set tail capture is consulted on every successful path; every compilation uses a fresh interpreter; no rule is skipped on an exact-class test; class-name lookups are not memoised. The recursive semantics over all pattern x node pairs is not decided.",
     "Assumes re.Pattern.match and dataclasses.replace semantics.",
     "DESIGN.md §3 C08",
 )
@@ -136,7 +142,8 @@ CLAIMS["C17"] = (
     "exception-escape dataflow over the compile entry points, sibling ladder comparison, grammar exhaustiveness against the interpreter, post-init idempotence",
     "For ASTXpath.__init__, from_pattern, validate_pattern and MultiPatternMatcher.__init__ every call on the text's data flow sits under a catch-all that converts to the definition error "
     "or an error tuple, and only the definition error can escape; validate_pattern and from_pattern have the same ladder; every rule of the pattern grammar has an interpreter handler and vice "
-    "versa; a re-run __post_init__ cannot reject a grammatical text; both grammars ignore whitespace and no terminal swallows a token that also stands on its own; nothing compiled is memoised across calls. Totality of lark and equality of matching behaviour of two compilations are not decided.",
+    "versa; a re-run __post_init__ cannot reject a grammatical text; both grammars ignore whitespace and no terminal swallows a token that also stands on its own; nothing compiled is memoised across calls; a capture is registered after the value it follows was compiled; string literals are unquoted by slicing; "
+    "the entry points reject the same texts before parsing. Totality of lark and equality of matching behaviour of two compilations are not decided.",
     "Assumes lark raises Exception subclasses; str methods on the text do not raise.",
     "DESIGN.md §3 C17",
 )
@@ -145,7 +152,7 @@ CLAIMS["C04"] = (
     "Static analysis decides the structural clauses of the round trip: a registry hit under the serialized id is returned as is; otherwise the re-created node's id is compared with "
     "the serialized one and, if different, the provisional key is removed, the id forced and the node registered under it, in that order; the tag key and value agree between writer and "
     "reader, subclasses are registered under their class name, unknown names raise; every {} placeholder is mapped back to its singleton, singletons carry no init-able state; each "
-    "to_X/from_X pair uses the same dialect and the writer passes layout-only codec options; the source index is written and read against tables filled together; "
+    "to_X/from_X pair uses the same dialect and the writer passes layout-only codec options (audited option tables for orjson and MessagePack); deserialization unregisters only the provisional entry of the node it built; the source index is written and read against tables filled together; "
     "the common source of a MultiOrigin is decided by value equality. The value-level fidelity of the round trip "
     "(mashumaro code generated at run time, orjson, msgpack, yaml) cannot be decided by static analysis and is not claimed.",
     "Assumes mashumaro/orjson/msgpack/PyYAML round-trip the representable values; registry states along histories are not decided.",
@@ -155,7 +162,7 @@ CLAIMS["C06"] = (
     "structural analysis of the table fill (full traversal, same-record triples, xpath spelling), identity discipline scan, decision trees of the queries",
     "Both Tree tables are filled from one full traversal with (parent, field, index) of the same record; the xpath of a node is its parent's xpath plus '/@field[index or 0]Class'; the "
     "membership table contains the root, the parent table does not; all node comparisons in the queries are identity tests; foreign nodes hit a table subscription (KeyError), a relative depth to a "
-    "non-ancestor raises ValueError; get_ancestors is the parent chain starting at the parent; is_ancestor / get_first_ancestor_of_type / get_depth / is_root are decided as decision trees (every answer follows a lookup of the node); to_tree returns a fresh Tree(self). "
+    "non-ancestor raises ValueError; get_ancestors is the parent chain starting at the parent; is_ancestor / get_first_ancestor_of_type / get_depth / is_root are decided as decision trees (every answer follows a lookup of the node); to_tree returns a fresh Tree(self); the traversal the tables are filled from is decided by the worklist calculus of C05. "
     "That following the xpath string reaches the node is not decided.",
     "Premise of the property: nodes hash by id and no node object occurs twice.",
     "DESIGN.md §3 C06",
@@ -171,7 +178,8 @@ CLAIMS["C11"] = (
 )
 CLAIMS["C18"] = (
     "identity-discipline scan, decision trees of the link-maintaining primitives, dependence analysis of the legacy digest",
-    "Necessary conditions on the hand-maintained redundancy of legacy nodes are decided on the source: upward queries compare nodes by identity (no == / in over ancestor streams); _reset_content_id walks the whole "
+    "Necessary conditions on the hand-maintained redundancy of legacy nodes are decided on the source: upward queries compare nodes by identity (no == / in over ancestor streams) and answer from the live parent links, never from the cached xpath; an id rewrite of an existing node is followed "
+    "by re-attaching it; _reset_content_id walks the whole "
     "parent chain and _replace_child calls it whenever a child is removed or its content id differs; wherever a child is stored its parent triple is set to exactly (parent, field, index) "
     "of the same tuple, later siblings shift by -1 on removal, detach unlinks children and pops the entry; the legacy content digest depends on class, comparable properties and "
     "(field, index, content_id) of children only. The invariant over histories is a reachability statement that static analysis does not decide and is not claimed.",
@@ -182,7 +190,7 @@ CLAIMS["C20"] = (
     "traversal-schema calculus + filter/prune truth table on the legacy worklists, grammar arity, escape analysis, truth table of the legacy step test",
     "The calculus and truth tables of C05 applied to legacy dfs/bfs (seed is the start node, exempt from filter/prune/emission exactly when skip_self, which is reset), legacy gather's "
     "formula and delegation, legacy xpath grammar vs transformer (all index digits), only the definition error escapes the legacy ASTXpath constructor, the legacy step test equals the "
-    "documented formula, the per-step anywhere flag does not leak into the next step, calculate_xpath/_set_xpath spell field, index and class and recurse over all children. Agreement of legacy match with the v2 semantics over all paths is not decided.",
+    "documented formula, the per-step anywhere flag does not leak into the next step, the accessors keep no copy of their answer on the node, calculate_xpath/_set_xpath spell field, index and class and recurse over all children. Agreement of legacy match with the v2 semantics over all paths is not decided.",
     "Assumes stdlib deque semantics and lark's argument filtering.",
     "DESIGN.md §3 C20",
 )
@@ -191,7 +199,7 @@ CLAIMS["C19"] = (
     "For replace, replace_with, _attach_inner (via __post_init__/attach), the transform visitor and the transformer, the set of outstanding effect primitives on pre-existing nodes "
     "(parent cleared/set, registry pop/store, id/original_id rewritten, completed replacements) is carried with branch facts to every failure exit; an effect that reaches a failure "
     "exit without its inverse is reported. The four genuine defects found this way are listed as known findings (keyed by operation and effect); any other uncompensated effect fails the "
-    "check. Pre-checks precede the first effect and compare children by the registry id, transformed subtrees are clones. Whether restored values equal the old values in every history is not decided.",
+    "check. Pre-checks precede the first effect and compare children by the registry id, transformed subtrees are clones whose child collections are copied for every collection kind the enumeration walks into; rejections are reached before the first effect on every path. Whether restored values equal the old values in every history is not decided.",
     "Assumes parent/registry primitives and compensation code in handlers do not raise; asserts state beliefs and are not failure exits.",
     "DESIGN.md §3 C19, Appendix B",
 )
